@@ -14,6 +14,7 @@ import XV.Driver.XInclude
 import XV.Driver.Ledger
 import XV.Driver.Dom
 import XV.Driver.XmlWf
+import XV.Driver.Facet
 open XV.Driver
 
 def main (args : List String) : IO UInt32 := do
@@ -47,5 +48,7 @@ def main (args : List String) : IO UInt32 := do
   | ["xmlwf"] => lineLoop stdin stdout XV.Driver.XmlWf.handle; return 0
   | ["xmlchar"] => for l in XV.Driver.XmlWf.dumpTables do stdout.putStrLn l
                    return 0
+  | ["facet"] => lineLoop stdin stdout XV.Driver.Facet.handle; return 0
+  | ["facetspec"] => lineLoop stdin stdout XV.Driver.Facet.handleSpec; return 0
   | ["utf8spec"] => lineLoop stdin stdout XV.Driver.Utf8.handleSpec; return 0
   | _ => IO.eprintln "usage: xvdriver <area>"; return 2
